@@ -196,9 +196,10 @@ AGENT_CHECKS = {
     },
     "C14": {
         "pkg": "p14",
-        "runs": [_r("TestC14", 600, 30000, qt=1500, tt=5000), _r("TestC14Tokens", 2000, 200000, qt=1500, tt=5000)],
+        "runs": [_r("TestC14", 600, 30000, qt=1500, tt=5000), _r("TestC14Tokens", 2000, 200000, qt=1500, tt=5000),
+                 _r("TestC14Concurrent", 150, 5000, qt=1500, tt=5000)],
         "fuzz": [{"target": "FuzzC14Token", "seconds": 300}],
-        "rule": "TestC14: one API (Read/ReadChanges/ListStores/ReadAuthorizationModels) x backend (memory/sqlite, fresh datastore per case) x data set "
+        "rule": "TestC14Concurrent: 2-8 concurrent writers x 5-25 single-tuple Writes on the memory backend, then ReadChanges walked with drawn page sizes: every walk visits every written tuple exactly once and in the order of one oversized page. TestC14: one API (Read/ReadChanges/ListStores/ReadAuthorizationModels) x backend (memory/sqlite, fresh datastore per case) x data set "
                 "(write/delete history in batches, decoy store, extra/deleted stores, models; n<=40 quick, <=200 thorough) x filter; EVERY page size 1..n+1 when "
                 "n<=12, else 3 sizes aimed at n mod size in {0,1,size-1}. Non-trivial: listing spans >= 2 pages. TestC14Tokens: small data set holding all four "
                 "kinds of items + decoy store, 4-12 attacks per case (bit flips, truncation, extension on raw and decoded tokens, tokens swapped between "
